@@ -18,7 +18,8 @@ RULE = ('pools of ~40 keys (str/bytes/int in and out of int64/float incl. -0.0, 
         'protocol) cells plus distinct (flavour, pair kind) cells')
 DISTINCT = ('pair_cells', 'flavour_cells')
 REQUIRED = ('pools', 'pairs_equal_identity', 'pairs_distinct_identity', 'flavour_cases', 'iteration_keys_checked',
-            'jsondisk_pools', 'pickle_alias_candidates', 'keys_spelled_in_another_interpreter')
+            'jsondisk_pools', 'pickle_alias_candidates', 'keys_spelled_in_another_interpreter',
+            'shadow_races_with_swap_before_file_open')
 ASSUMPTIONS = ('identity rule: str by code points, bytes by content, int64 and float by exact numeric value, '
                'everything else by type and structure (DESIGN.md C02)',
                'under JSONDisk identity is the JSON text; int/float unification is asserted for Disk only',
@@ -300,6 +301,77 @@ def check_flavours(dc, sc, res, rng, proto, a, b, label):
             sc.drop(d)
 
 
+def shadow_race(dc, sc, res, rng, label):
+    """Distinct keys never shadow each other, also while they come and go: a lookup of A that overlaps 'remove A, store
+    B' by another client answers with A's value or with a miss - never with B's value.  The adversarial schedule lets
+    the other client finish right before the reader opens A's value file."""
+    from ..sched import Recorder, Sched
+    pairs = [('name', b'name'), (1, (1,)), (2**64, pickletools.optimize(pickle.dumps(2**64, protocol=pickle.HIGHEST_PROTOCOL))),
+             ((1, 2), (1.0, 2.0)), ('a', 'a\x00'), (None, 'None'), (0, False), ('k1', 'k2')]
+    a, b = pairs[rng.randrange(len(pairs))]
+    if rng.random() < 0.5:
+        a, b = b, a
+    d = sc.new()
+    clock = probe.set_clock(probe.VClock())
+    setup = dc.Cache(d, disk_min_file_size=64, timeout=0)
+    va, vb = 'value-of-A;' * 20, 'value-of-B;' * 20
+    for i in range(rng.randrange(0, 3)):
+        setup.set('filler-%d' % i, i)
+    setup.set(a, va)                                   # the newest row
+    reader, writer = dc.Cache(d, timeout=0), dc.Cache(d, timeout=0)
+    how = rng.choice(['get', 'getitem', 'read', 'index'])
+    sch = Sched(rng, clock, strategy='chase', victims=[0], chase_label='pre:fopen')
+    rec = Recorder(sch)
+    out = {}
+
+    def look():
+        if how == 'get':
+            out['got'] = reader.get(a, 'MISS')
+        elif how == 'getitem':
+            try:
+                out['got'] = reader[a]
+            except KeyError:
+                out['got'] = 'MISS'
+        elif how == 'read':
+            try:
+                with reader.read(a) as f:
+                    out['got'] = f.read().decode() if hasattr(f, 'read') else f
+            except KeyError:
+                out['got'] = 'MISS'
+        else:
+            try:
+                out['got'] = dc.Index.fromcache(reader)[a]
+            except KeyError:
+                out['got'] = 'MISS'
+
+    def swap():
+        del writer[a]
+        writer[b] = vb
+    try:
+        ok = sch.run([lambda: rec.call(0, how, (a,), look), lambda: rec.call(1, 'swap', (a, b), swap)])
+        probe.set_controller(None)
+        wit = {'label': label, 'A': a, 'B': b, 'lookup': how, 'other_client_ran_in_front_of_the_file_open': sch.chases}
+        if sch.errors() or not ok:
+            res.violation('lookup racing with delete/insert did not complete: %s' % (sch.errors()[:1],), wit)
+            return
+        res.count('evaluations')
+        res.count('shadow_races')
+        if sch.chases:
+            res.count('shadow_races_with_swap_before_file_open')
+        got = out.get('got')
+        if got not in (va, 'MISS'):
+            res.violation('a lookup of %r returned %r - the value stored under the different key %r' % (a, str(got)[:24], b), wit)
+    finally:
+        probe.set_controller(None)
+        probe.set_clock(None)
+        for c in (setup, reader, writer):
+            try:
+                c.close()
+            except Exception:      # noqa: BLE001
+                pass
+        sc.drop(d)
+
+
 def run_shard(tier, seed, shard, nshards, res):
     dc = common.use_repo()
     probe.install()
@@ -341,6 +413,10 @@ def run_shard(tier, seed, shard, nshards, res):
         c13.cross_process(dc, sc, res, rng, [1, 8, 3][shard % 3], ('random', 0),
                           'c02 across interpreters seed=%d shard=%d' % (seed, shard), keys=keys)
         res.count('keys_spelled_in_another_interpreter', res.counters.get('keys_cross_process', 0) - before)
+        for i in range(10 if tier == 'quick' else 120):
+            rng = common.rng_for(seed, 'c02r', shard, i)
+            shadow_race(dc, sc, res, rng, 'c02 shadow race seed=%d shard=%d i=%d' % (seed, shard, i))
+        probe.install()
         # a key and the bytes equal to its serialized form sitting exactly on the page boundaries of sorted iteration
         # (first row is fetched alone, then pages of 100), in both directions
         for proto in sorted({shard % 6, (shard + 3) % 6}):
